@@ -4,6 +4,8 @@ import Abyss.Props.C03Db
 import Abyss.Props.RaBufP
 import Abyss.Props.RaBufMap
 import Abyss.Props.C03Rb
+import Abyss.Props.C03Gen
+#print axioms Abyss.RaBuf.C16_generated_flush
 #print axioms Abyss.C16_recovered_image_rb
 #print axioms Abyss.RaBuf.C16_map_faults
 #print axioms Abyss.RaBuf.C16_chunk_faults
